@@ -385,21 +385,79 @@ func nextStmt(l *Loaded, s ast.Stmt) ast.Stmt {
 }
 
 func isLocalLiteral(m *ServerModel, fi *FuncInfo, e ast.Expr) bool {
+	return isLocalLiteralDepth(m, fi, e, 0)
+}
+
+func isLocalLiteralDepth(m *ServerModel, fi *FuncInfo, e ast.Expr, depth int) bool {
+	if u, ok := unparen(e).(*ast.UnaryExpr); ok && u.Op == token.AND {
+		_, isLit := unparen(u.X).(*ast.CompositeLit)
+		return isLit
+	}
 	v, ok := objOf(m.Info, e).(*types.Var)
 	if !ok {
 		return false
 	}
 	res := m.resolver(fi)
-	d, ok := res.defs[v]
-	if !ok || d == nil {
+	if d, ok := res.defs[v]; ok && d != nil {
+		if u, ok := unparen(d).(*ast.UnaryExpr); ok && u.Op == token.AND {
+			_, isLit := u.X.(*ast.CompositeLit)
+			return isLit
+		}
+	}
+	// the variable receives, once, result i of a private function of the package all of whose
+	// returns hand back nil or a reference they built themselves in that position
+	if depth >= 2 {
 		return false
 	}
-	u, ok := unparen(d).(*ast.UnaryExpr)
-	if !ok || u.Op != token.AND {
+	var def *ast.AssignStmt
+	idx, n := -1, 0
+	ast.Inspect(fi.Decl.Body, func(nd ast.Node) bool {
+		switch st := nd.(type) {
+		case *ast.AssignStmt:
+			for i, lhs := range st.Lhs {
+				if objOf(m.Info, lhs) == v {
+					n++
+					def, idx = st, i
+				}
+			}
+		case *ast.UnaryExpr:
+			if st.Op == token.AND && objOf(m.Info, st.X) == v {
+				n += 2 // its address is taken: other stores are possible
+			}
+		}
+		return true
+	})
+	if n != 1 || def == nil || len(def.Rhs) != 1 {
 		return false
 	}
-	_, isLit := u.X.(*ast.CompositeLit)
-	return isLit
+	call, ok := unparen(def.Rhs[0]).(*ast.CallExpr)
+	if !ok {
+		return false
+	}
+	tf := m.L.FuncOf(callee(m.Info, call))
+	if tf == nil || tf.Decl.Body == nil || tf.Pkg != fi.Pkg || tf.Obj.Exported() {
+		return false
+	}
+	nret, okAll := 0, true
+	inspectNoLit(tf.Decl.Body, func(nd ast.Node) {
+		ret, ok := nd.(*ast.ReturnStmt)
+		if !ok {
+			return
+		}
+		nret++
+		if idx >= len(ret.Results) {
+			okAll = false
+			return
+		}
+		x := unparen(ret.Results[idx])
+		if isNilIdent(m.Info, x) {
+			return
+		}
+		if !isLocalLiteralDepth(m, tf, x, depth+1) {
+			okAll = false
+		}
+	})
+	return nret > 0 && okAll
 }
 
 func c04FidFieldsUsed(r *Run, m *ServerModel, handlers []*FuncInfo) {
@@ -673,7 +731,7 @@ func c04Misc(r *Run, m *ServerModel, hinfo map[*FuncInfo]*HandlerInfo) {
 			if b.Site.Root != fi || b.Method != "Attach" {
 				continue
 			}
-			g := Guard{"attach with an auth fid", []Lit{L(false, "$t.Auth.Authenticationfid == noFID", "noFID == $t.Auth.Authenticationfid")}, 22}
+			g := Guard{"attach with an auth fid", []Lit{L(false, "$t.Auth."+r.L.authFidField()+" == noFID", "noFID == $t.Auth."+r.L.authFidField())}, 22}
 			ok, detail := m.checkGuard(h, b.Site.St, g, m.exitsDeep(fi))
 			if ok {
 				r.ok("r4", "p9.tattach.handle: guard \"attach with an auth fid\"", b.Site.Call.Pos(), "%s", detail)
